@@ -20,7 +20,7 @@ type c12Case struct {
 }
 
 func genC12(t *rapid.T) c12Case {
-	g := &fgen{t: t, maxAtoms: 5, maxDepth: 4, maxWidth: 3, budget: 9, quant: true, edges: 2, multiPC: rapid.Bool().Draw(t, "multiPC")}
+	g := &fgen{t: t, maxAtoms: 5, maxDepth: 4, maxWidth: 3, budget: 9, quant: true, edges: 2, multiPC: rapid.Bool().Draw(t, "multiPC"), viaPaths: true, companions: true}
 	if ev.Thorough() {
 		g.maxDepth, g.budget = 5, 12
 	}
@@ -46,6 +46,12 @@ func genC12(t *rapid.T) c12Case {
 			body = m.Or(subs...)
 		default:
 			body = g.bounded(40)
+		}
+		// some constraint keys become arbitrary path expressions (inverse steps, alternatives, @type): the trace must still
+		// name component and path
+		if rapid.IntRange(0, 2).Draw(t, "decorate") == 0 {
+			ops := 0
+			decoratePaths(t, body, &ops)
 		}
 		name := fmt.Sprintf("shape%d", i)
 		c.Shapes = append(c.Shapes, name)
@@ -102,8 +108,14 @@ func collectIDs(v any, path string, ids map[string]string) string {
 			}
 			ids[s] = path
 		}
+		isTraceValue := containsStr(x["@type"], "validation:TraceValue")
 		for k, e := range x {
 			if k == "@context" {
+				continue
+			}
+			// the fields of a trace value other than subResult hold DATA of the input graph (e.g. `actual` may be a whole
+			// input node reached by an inverse step, with its own @id and links): they are not nodes of the report
+			if isTraceValue && k != "subResult" {
 				continue
 			}
 			if msg := collectIDs(e, path+"/"+k, ids); msg != "" {
